@@ -14,6 +14,13 @@
 (*   DeadlineWhileAsleep - FALSE: not examined while all scripts sleep     *)
 (*   EmptyBodyCounts     - FALSE: while with an empty body never advances  *)
 (*                         the loop counter (F11b)                         *)
+(* Limits_MC adds the exit request (set by the deadline abort, cleared by  *)
+(* the next start), expression evaluations between runs (EvalBegin /       *)
+(* EvalInstr / EvalEnd: runtime::evaluate_expression, what __EVAL uses)    *)
+(* and start requests refused during a run, with the deviations            *)
+(*   EvalIsOwnExecution = FALSE      - the evaluation finds the exit       *)
+(*                         request / budget of the last run and never ends *)
+(*   RefusedStartKeepsBudget = FALSE - a refused start renews the budget   *)
 (***************************************************************************)
 EXTENDS Integers, Sequences, FiniteSets, TLC
 
